@@ -474,3 +474,17 @@ def gen_extra(thorough: bool) -> Iterator[tuple[str, list[list[Any]]]]:
                     lp: Any = Forever(body) if loop == "forever" else While(False, Hdr(7), body)
                     stmts = [If(False, [Hdr(8)], [lp])] if inside_if else [lp]
                     yield "switch-in-loop", [stmts + [Ctl("hold")]]
+    # a loop inside a loop whose body is an if chain with a break: every branch of the chain leads to a label written before it
+    for inner_neg in (False, True):
+        for if_neg in (False, True):
+            for chain in ("else", "elseif-else", "elseif"):
+                nm = Names()
+                br = [Ctl("break_loop")]
+                if chain == "else":
+                    iff: Any = If(if_neg, [nm.h()], br, [], [nm.p()])
+                elif chain == "elseif-else":
+                    iff = If(if_neg, [nm.h()], br, [(False, [nm.h()], [nm.p()])], [nm.p()])
+                else:
+                    iff = If(if_neg, [nm.h()], br, [(False, [nm.h()], [nm.p()])])
+                yield "loop-in-loop-if-chain", [[Forever([nm.p(), While(inner_neg, nm.h(), [iff])]), Ctl("end")]]
+                yield "loop-in-loop-if-chain", [[Forever([nm.p(), While(inner_neg, nm.h(), [iff, nm.p()]), nm.p()]), Ctl("end")]]
